@@ -1,0 +1,17 @@
+//go:build verif
+
+package db
+
+import "database/sql"
+
+// VerifMigrated reports whether the database behind the handle already carries applied migrations.
+// The runtime-verification harness (/verif) creates thousands of short-lived stores per process
+// from a migrated template file; RunMigrations(dbPath) opens a handle of its own per call, so the
+// verif constructors skip it when there is nothing to migrate. Only compiled with the `verif` tag.
+func VerifMigrated(database *sql.DB) bool {
+	var n int
+	if err := database.QueryRow(`SELECT COUNT(*) FROM gorp_migrations`).Scan(&n); err != nil {
+		return false
+	}
+	return n > 0
+}
